@@ -77,10 +77,13 @@ def main():
     for _ in range(10 if tier == 'quick' else 60):
         gz = rng.random() < 0.5
         T1 = rng.randint(2, 6)
-        steps = [dict(sizes=[2], rates=[0.1], target=T1, save_freq=rng.choice([1, 2, 3]),
+        sizes0 = rng.choice([[2], [2, 3], [2, 3]])
+        rates0 = rng.choice([[0.1], [0.1], [0.1, 0.3]])
+        steps = [dict(sizes=sizes0, rates=rates0, target=T1, save_freq=rng.choice([1, 2, 3]),
                       event=rng.choice([{'kind': 'none'}, {'kind': 'kbd_trial', 'at': rng.randint(1, T1)}, {'kind': 'kill_write', 'at': 1, 'bytes': rng.choice([0, 30, 100000])}]))]
-        grown_sizes = [2, 3] if rng.random() < 0.6 else [2]
-        grown_rates = [0.1, 0.3] if rng.random() < 0.6 else [0.1]
+        # the specification grows: a size and/or a rate is appended (appending a rate shifts the position of every later code's records)
+        grown_sizes = sizes0 + ([max(sizes0) + 1] if rng.random() < 0.5 else [])
+        grown_rates = rates0 + ([0.2] if rng.random() < 0.6 else [])
         T2 = T1 + rng.randint(0, 4)
         if rng.random() < 0.5:
             steps.append(dict(sizes=grown_sizes, rates=grown_rates, target=T2, save_freq=rng.choice([1, 2]),
